@@ -385,3 +385,11 @@ META = {
     "technique": "Coq proof (structural induction over the required-output list) + in-Coq truth-table correspondence + rule oracle",
     "design_ref": "5/C11",
 }
+
+# scheduler-level stream: the pool automaton (Model/Pool.v) accepts every real run; see Props/C11.v (pool theorems)
+from vp.sched.stream import SchedStream  # noqa: E402
+STREAMS.append(SchedStream('C11', name="sched-completion", feat={'abs': True, 'retries': True}, n_quick=28, n_thorough=500))
+META["level_text"] += (" Scheduler level: every real run of generated workflows must be accepted by the pool automaton "
+                       "(Model/Pool.v): a task is removed as completed only when finished with its completion expression "
+                       "(derived by the harness from the documented rule) true, and no finished complete task is still "
+                       "pooled at the end of an iteration (c11_pool_* theorems).")
